@@ -330,6 +330,18 @@ class FlowSampler:
                 **kwargs,
             )
 
+    @staticmethod
+    def _check_posterior_sampling_method(method):
+        """Raise an error if the posterior sampling method is not known."""
+        if method not in (
+            "rejection_sampling",
+            "multinomial_resampling",
+            "importance_sampling",
+        ):
+            raise ValueError(
+                f"Unknown method of drawing posterior samples: {method}"
+            )
+
     def run_standard_sampler(
         self,
         plot=True,
@@ -371,6 +383,7 @@ class FlowSampler:
             close_pool = self.close_pool
         if posterior_sampling_method is None:
             posterior_sampling_method = "rejection_sampling"
+        self._check_posterior_sampling_method(posterior_sampling_method)
 
         self.ns.initialise()
         self.logZ, self._nested_samples = self.ns.nested_sampling_loop()
@@ -474,6 +487,7 @@ class FlowSampler:
             close_pool = self.close_pool
         if posterior_sampling_method is None:
             posterior_sampling_method = "importance_sampling"
+        self._check_posterior_sampling_method(posterior_sampling_method)
 
         self.ns.nested_sampling_loop()
         self._nested_samples = self.ns.samples
